@@ -100,6 +100,15 @@ DiagCases ==
       porder |-> <<2, 1>>, aorder |-> <<1, 2>>] :
         x \in {y \in SeqsOf([g : DiagGeoms, cls : {1}], 2) \X SeqsOf([g : DiagGeoms, sc : {<<3, 1>>}], 2) :
                   Len(y[1]) + Len(y[2]) <= 3 /\ Len(y[1]) >= 1 /\ Len(y[2]) >= 1}}
+\* intervals that merely TOUCH (a prediction [a, b] and an annotation [b, c], either way round): their intersection is
+\* exactly 0 on any grid.  deci: the binder also runs these at the DECIMAL unit 0.1 s (real doubles such as 0.3 and 0.7).
+TouchCases ==
+    {[kind |-> "lat", vocab |-> 2, deci |-> TRUE,
+      clips |-> <<Anchor, [id |-> 2, anns |-> <<[g |-> <<G("TimeInterval", x[1])>>, cls |-> 1]>>,
+                                    preds |-> <<[g |-> <<G("TimeInterval", x[2])>>, sc |-> <<3, 1>>]>>]>>,
+      porder |-> <<2, 1>>, aorder |-> <<1, 2>>] :
+        x \in {y \in ((0..9) \X (0..9)) \X ((0..9) \X (0..9)) :
+                  /\ y[1][1] < y[1][2] /\ y[2][1] < y[2][2] /\ (y[1][2] = y[2][1] \/ y[2][2] = y[1][1])}}
 \* "terms": vocabularies, annotation tags and predicted tags over tags whose terms share a label or a name (Detection: tag table)
 VocOpts  == {<<1, 4>>, <<1, 2>>, <<2, 1>>, <<3, 1>>, <<4, 3>>, <<2, 3>>}
 ATagOpts == {<<>>, <<1>>, <<2>>, <<3>>, <<4>>, <<2, 1>>}
@@ -110,7 +119,7 @@ TermCases ==
       porder |-> <<2, 1>>, aorder |-> <<1, 2>>] : v \in VocOpts, a \in ATagOpts, p \in PTagOpts}
 Cases == CASE Universe = "events" -> EventCases
            [] Universe = "clips"  -> ClipCases
-           [] Universe = "extra"  -> HoleCases \cup TermCases \cup TimeCases \cup ZeroCases \cup DiagCases
+           [] Universe = "extra"  -> HoleCases \cup TermCases \cup TimeCases \cup ZeroCases \cup DiagCases \cup TouchCases
 
 (* ---- rationals ---- *)
 RMean(s) ==     \* mean of a sequence of rationals, <<0, 1>> for the empty sequence (_mean returns 0.0)
